@@ -473,7 +473,7 @@ theorem shown_marshal_congr (tc : Ticket) {l l' : TextSt} (hv : l.map nview = l'
 
 /-- **`Text.Marshal()` is determined by the abstract state**: two well-formed block lists with unique
     attribute keys and the same abstraction print the same JSON -/
-theorem marshal_eq_of_abs {s s' : TextSt} (wf : WF s) (wf' : WF s') (a : AttrsNodup s)
+theorem marshal_eq_of_abs {s s' : TextSt} (wf : WFg s) (wf' : WFg s') (a : AttrsNodup s)
     (a' : AttrsNodup s') (h : abs s = abs s') (tc : Ticket) : marshal tc s = marshal tc s' := by
   have hv : (s.drop 1).map nview = (s'.drop 1).map nview := by
     have h1 := obsA_abs s
